@@ -75,6 +75,22 @@ func (this *zzCanaryCount) Read(in *io.DataInputX) {
 	}
 }
 
+type zzCanaryTail3 struct{ a, b int32 }
+
+// optional tail decided by what is left on the stream the pack was handed
+func (this *zzCanaryTail3) Write(o *io.DataOutputX) {
+	o.WriteInt(this.a)
+	if this.b != 0 {
+		o.WriteInt(this.b)
+	}
+}
+func (this *zzCanaryTail3) Read(in *io.DataInputX) {
+	this.a = in.ReadInt()
+	if in.Available() > 0 {
+		this.b = in.ReadInt()
+	}
+}
+
 func zzCanaryErr(s string) int {
 	v, err := strconv.Atoi(s)
 	if err != nil {
@@ -87,6 +103,7 @@ func zzCanaryErr(s string) int {
 		{Rule: "C03.fields", Sub: "zzCanaryLabel"},
 		{Rule: "C03.countlink", Sub: "zzCanaryCount"},
 		{Rule: "C03.errcheck", Sub: "zzCanaryErr"},
+		{Rule: "C03.selfdelim", Sub: "zzCanaryTail3"},
 	}}}
 }
 
@@ -105,6 +122,8 @@ func runC03(p *core.Program, r *core.Report) {
 	r.Rule("C03.containers", "record containers stamp Pcode/Oid/Okind/Onode on every element they return", 2)
 	r.Rule("C03.zipstatus", "doZip marks the pack ZIPPED exactly when it compresses; doUnZip decompresses exactly when marked", 1)
 	r.Rule("C03.errcheck", "a value obtained together with an error is not consumed on the err != nil branch", 2)
+	r.Rule("C03.selfdelim", "no pack decoder decides an optional section by what is left on the stream it was handed (packs are concatenated inside zip and composite packs: the bytes left are the next pack's); Available() is asked only of a stream built over a length-delimited blob", 0)
+	ownExtentRule(p, r, "C03.selfdelim", "lang/pack", "inside a zip or composite pack what is left there is the next pack, which is swallowed; decoding does not consume exactly the encoding")
 
 	r.Rule("C03.empty-blob", "a record blob that was never filled decodes as no records: a getter that opens a stream over a blob field and reads a count from it first rules out the empty blob (a decoded pack holds an empty, non-nil blob where the original held nil — a nil test alone lets it through to a read that fails)", 6)
 	c03EmptyBlob(p, r, "C03.empty-blob", "lang/pack")
